@@ -126,6 +126,48 @@ def send_loop_rules(chk, P, prefix):
     chk.ob("%s.R1:ok-when-drained" % prefix, "Ok(()) only when no request is left", lambda: ok_only_when_drained(P))
 
 
+def channel_metrics_wiring(chk, P, key):
+    """`Otlp::metric_source` samples one channel per signal: the `<signal>_channel_metrics` field of the OtlpMetrics it builds is read off the
+    client's `otlp_<signal>` sender - the like-named one (shared with C09: an overflow of the traces channel is counted where the traces
+    metrics are read, not under logs)."""
+    def f():
+        b = P.body("emit_otlp::client::Otlp::metric_source")
+        ev = []
+        for bb, j, st in b.statements(normal_only=True):
+            if st["k"] == "assign" and st["rv"]["k"] == "agg" and "OtlpMetrics" in (st["rv"].get("adt") or ""):
+                for fld, op in zip(st["rv"].get("fields") or [], st["rv"]["ops"]):
+                    if not fld.endswith("_channel_metrics"):
+                        continue
+                    sig = fld[:-len("_channel_metrics")]
+                    seen = set()
+                    o = b.origin(op)
+                    d = 0
+                    while o[0] == "call" and d < 10:
+                        d += 1
+                        for a in o[1].args[1:]:
+                            ao = b.origin(a)
+                            if ao[0] == "agg" and ao[1].get("ak") == "closure" and P.has_body(ao[1].get("def")):
+                                cb = P.body(ao[1]["def"])
+                                r = cb.origin(0, through_calls=("as_ref", "as_mut", "as_deref"))
+                                for nm in mir.o_field_path(r)[1] or []:
+                                    if isinstance(nm, str) and nm.startswith("otlp_"):
+                                        seen.add(nm)
+                        for nm in mir.o_field_path(o)[1] or []:
+                            if isinstance(nm, str) and nm.startswith("otlp_"):
+                                seen.add(nm)
+                        if not o[1].args:
+                            break
+                        o = b.origin(o[1].args[0])
+                    if seen != {"otlp_" + sig}:
+                        return False, ("OtlpMetrics.%s is sampled from %s, not from the client's otlp_%s channel: that signal's queue length and truncation "
+                                       "counter report another signal's channel" % (fld, sorted(seen) or "nothing recognisable", sig)), [], b.span
+                    ev.append("%s <- otlp_%s" % (fld, sig))
+        if len(ev) < 3:
+            raise mir.AnchorMissing("per-signal channel metrics in Otlp::metric_source (found %d)" % len(ev))
+        return True, "", ev
+    chk.ob(key, "each signal's channel metrics are read off that signal's own sender", f)
+
+
 def run(chk):
     P = mir.Program("K1")
     chk.use_program(P)
@@ -611,4 +653,5 @@ def run(chk):
                     return False, "a path through Channel::push adds an event without updating the running request size", [], b.span
         return True, "", ["%d size updates, one on every path" % len(stores)]
     chk.ob("C12.R2:request-size-accounting", "the running request size is updated on every push (set on a new request, increased on a joined one)", request_size_accounting)
+    channel_metrics_wiring(chk, P, "C12.R9:channel-metrics-wiring")
     return chk
